@@ -301,21 +301,26 @@ func genC02(g *G) {
 		}
 		g.emit("slip10.derive", "toyperm", hx(g.r.bytes(16)), csvU32(g.path(40, false)))
 	}
+	if g.thorough {
+		shiftCorners(g, 12)
+	} else {
+		shiftCorners(g, 3)
+	}
 	for _, b := range [][]byte{{}, []byte("abc"), make([]byte, 127), make([]byte, 128), make([]byte, 129), make([]byte, 200)} {
 		g.emit("hash.hmac512", hx(g.r.bytes(g.r.intn(140))), hx(b))
 		g.emit("hash.hash160", hx(b))
 	}
 }
 
-func genC08(g *G) {
+// shiftCorners: PrivateKey.Shift / PublicKey.Shift at the boundaries of the scalar arithmetic (shift 0, k, n-k, n-k+1, n-1, n,
+// n+1, 2^256-1): the step of CKD in which "the resulting key is invalid, retry" is decided. Shared by C08 and — since seeded
+// change C02-h, an off-by-one in the reduction of I_L + k_par that only k + shift = n reaches — by C02, whose retry clause
+// depends on exactly this decision and whose derivation stream meets it with probability 2^-256.
+func shiftCorners(g *G, n int) {
 	orders := map[string]*big.Int{}
 	orders["k1"], _ = new(big.Int).SetString("FFFFFFFFFFFFFFFFFFFFFFFFFFFFFFFEBAAEDCE6AF48A03BBFD25E8CD0364141", 16)
 	orders["p256"], _ = new(big.Int).SetString("ffffffff00000000ffffffffffffffffbce6faada7179e84f3b9cac2fc632551", 16)
 	be32 := func(x *big.Int) []byte { return x.FillBytes(make([]byte, 32)) }
-	n := 8
-	if g.thorough {
-		n = 250
-	}
 	for _, cv := range []string{"k1", "p256"} {
 		N := orders[cv]
 		for i := 0; i < n; i++ {
@@ -335,6 +340,16 @@ func genC08(g *G) {
 				g.emit("slip10.shift", cv, hx(be32(k)), hx(be32(s)))
 			}
 		}
+	}
+}
+
+func genC08(g *G) {
+	n := 8
+	if g.thorough {
+		n = 250
+	}
+	shiftCorners(g, n)
+	for _, cv := range []string{"k1", "p256"} {
 		// public vs private child derivation
 		for i := 0; i < 2*n; i++ {
 			g.emit("slip10.pubderive", cv, hx(g.r.bytes(16+g.r.intn(40))), csvU32(g.path(3, false)), csvU32([]uint32{uint32(g.r.next()) &^ (1 << 31)}))
